@@ -121,7 +121,12 @@ def run_shard(spec, res):
                                     dict(wit, seed=sd))
                             if lu != L:
                                 res.count('randomized_order_differs')
-                        for N in range(1, M + 2):
+                        limits = list(range(1, M + 2))
+                        if len(limits) > 9:
+                            limits = sorted(set(
+                                [1, 2, M - 1, M, M + 1] +
+                                rng.sample(range(3, M - 1), 4)))
+                        for N in limits:
                             path = base + '&limit=%d' % N
                             if rand:
                                 pyrandom.seed(sd * 1000 + N)
